@@ -11,10 +11,18 @@ import autofit as af
 
 
 class SpecAnalysis(af.Analysis):
-    def __init__(self, terms):
+    def __init__(self, terms, reject=None):
         self.terms = [(tuple(p), float(c), float(t)) for p, c, t in terms]
+        # optional region in which the fit is impossible: (path, lo, hi) -> FitException
+        self.reject = None if reject is None else (tuple(reject[0]), float(reject[1]), float(reject[2]))
 
     def log_likelihood_function(self, instance):
+        if self.reject is not None:
+            obj = instance
+            for name in self.reject[0]:
+                obj = getattr(obj, name)
+            if self.reject[1] <= obj < self.reject[2]:
+                raise af.exc.FitException("rejected region")
         total = 0.0
         for path, c, t in self.terms:
             obj = instance
